@@ -36,7 +36,7 @@ var dstKinds = []string{"rgba64", "rgba", "nrgba", "nrgba64", "opaque"}
 // newSource builds a source image of the given kind with bounds r and random content. For the
 // concrete pixel-store types it is a sub-image of a larger parent (stride > width).
 func newSource(rg *rng, kind string, r image.Rectangle) image.Image {
-	outer := image.Rect(r.Min.X-rg.intn(3), r.Min.Y-rg.intn(3), r.Max.X+rg.intn(3), r.Max.Y+rg.intn(3))
+	outer := image.Rect(r.Min.X-rg.intn(3), r.Min.Y-rg.intn(3), r.Max.X+rg.intn(4), r.Max.Y+rg.intn(3))
 	fill := func(p []uint8) {
 		for i := range p {
 			p[i] = byte(rg.next())
@@ -143,8 +143,19 @@ type dstCase struct {
 // newDest builds a destination whose bounds are at least as large as size, as a sub-image of a
 // larger parent, at the given origin.
 func newDest(rg *rng, kind string, origin image.Point, size image.Point) dstCase {
-	r := image.Rect(origin.X, origin.Y, origin.X+size.X+rg.intn(3), origin.Y+size.Y+rg.intn(3))
-	outer := image.Rect(r.Min.X-rg.intn(4), r.Min.Y-rg.intn(4), r.Max.X+rg.intn(4), r.Max.Y+rg.intn(4))
+	return newDestX(rg, kind, origin, size, rg.intn(2) == 0)
+}
+
+// newDestX: exact = destination bounds have exactly the source's size (otherwise up to 2 larger);
+// the parent is larger than the destination in at least one direction in most cases, so that the
+// destination's stride differs from its width and from the source's stride.
+func newDestX(rg *rng, kind string, origin image.Point, size image.Point, exact bool) dstCase {
+	ex, ey := 0, 0
+	if !exact {
+		ex, ey = rg.intn(3), rg.intn(3)
+	}
+	r := image.Rect(origin.X, origin.Y, origin.X+size.X+ex, origin.Y+size.Y+ey)
+	outer := image.Rect(r.Min.X-rg.intn(4), r.Min.Y-rg.intn(4), r.Max.X+rg.intn(5), r.Max.Y+rg.intn(4))
 	mk := func(pix []uint8) (draw.Image, []uint8, int, int, string) {
 		switch kind {
 		case "rgba":
@@ -256,11 +267,26 @@ func corrC10(c *corrCtx) {
 					sb = src.Bounds()
 				}
 				x := xs[r.intn(len(xs))]
-				for _, n := range []int{1, 2, 3, 7, 16, g.h + 5} {
-					if !c.thorough() && n != 1 && r.intn(3) != 0 {
-						continue
+				for _, exact := range []bool{true, false} {
+					for _, n := range []int{1, 2, 3, 7, 16, g.h + 5} {
+						if !c.thorough() && n != 1 && r.intn(3) != 0 {
+							continue
+						}
+						c10CaseX(c, r, "zoo/"+sk+"->"+dk, src, sb, dk, dOrigin, x, n, false, exact)
 					}
-					c10Case(c, r, "zoo/"+sk+"->"+dk, src, sb, dk, dOrigin, x, n, false)
+				}
+			}
+		}
+		// the concrete-type fast paths, every geometry, same-size and larger destinations
+		for _, pair := range [][2]string{{"rgba64", "rgba64"}, {"rgba64", "rgba"}, {"rgba", "rgba64"}, {"nrgba", "rgba64"}, {"nrgba64", "rgba"}, {"rgba", "rgba"}} {
+			for _, g := range geoms[3:] {
+				for _, exact := range []bool{true, false} {
+					sOrigin := image.Pt(r.intn(21)-10, r.intn(21)-10)
+					dOrigin := image.Pt(r.intn(21)-10, r.intn(21)-10)
+					sb := image.Rect(sOrigin.X, sOrigin.Y, sOrigin.X+g.w, sOrigin.Y+g.h)
+					src := newSource(r, pair[0], sb)
+					sb = src.Bounds()
+					c10CaseX(c, r, "fast/"+pair[0]+"->"+pair[1], src, sb, pair[1], dOrigin, xs[r.intn(len(xs))], r.pick(1, 2, 3, 7), false, exact)
 				}
 			}
 		}
@@ -276,7 +302,11 @@ func corrC10(c *corrCtx) {
 }
 
 func c10Case(c *corrCtx, r *rng, class string, src image.Image, sb image.Rectangle, dk string, dOrigin image.Point, x xform, n int, inPlace bool) {
-	d := newDest(r, dk, dOrigin, sb.Size())
+	c10CaseX(c, r, class, src, sb, dk, dOrigin, x, n, inPlace, r.intn(2) == 0)
+}
+
+func c10CaseX(c *corrCtx, r *rng, class string, src image.Image, sb image.Rectangle, dk string, dOrigin image.Point, x xform, n int, inPlace bool, exact bool) {
+	d := newDestX(r, dk, dOrigin, sb.Size(), exact)
 	if inPlace {
 		// the destination itself is the source: make its bounds exactly the source size
 		d = newDestExact(r, dk, dOrigin, sb.Size())
@@ -309,6 +339,8 @@ func c10Case(c *corrCtx, r *rng, class string, src image.Image, sb image.Rectang
 			linear.TransformImageColor(d.img, src, n, x.f)
 		}
 	}
+	c.mark(fmt.Sprintf("TransformImageColor class=%s transform=%s parallelism=%d src_bounds=%v src_type=%T dst_bounds=%v dst_type=%T dst_stride=%d dst_start=%d in_place=%v",
+		class, x.name, n, sb, src, db, d.img, d.stride, d.start, inPlace))
 	if p := safeTransform(run); p != nil {
 		c.direct(fmt.Sprintf("C10/panic/%s/%s/n%d", class, x.name, n), "image transform panics", map[string]interface{}{"panic": fmt.Sprint(p), "src": sb.String(), "dst": db.String()})
 		return
@@ -330,12 +362,7 @@ func c10Case(c *corrCtx, r *rng, class string, src image.Image, sb image.Rectang
 }
 
 func newDestExact(rg *rng, kind string, origin image.Point, size image.Point) dstCase {
-	for {
-		d := newDest(rg, kind, origin, size)
-		if d.img.Bounds().Size() == size {
-			return d
-		}
-	}
+	return newDestX(rg, kind, origin, size, true)
 }
 
 // ---- C15 ------------------------------------------------------------------------------
@@ -366,6 +393,7 @@ func corrC15(c *corrCtx) {
 					var out image.Image
 					var pix []uint8
 					var stride int
+					c.mark(fmt.Sprintf("ConvertImageTo%s src_kind=%s bounds=%v parallelism=%d", target, sk, sb, n))
 					p := safeTransform(func() {
 						switch target {
 						case "nrgba":
